@@ -219,6 +219,20 @@ Theorem closest_level_thr_switch_partial :
     closest_level_thr g [t] rn rd = if t * rd <? rn then k - 1 else k.
 Proof. exact Grid_proofs.closest_level_thr_switch. Qed.
 
+(* Any number of thresholds.  thr_pass computes the state the threshold list is in after levels 0 .. k-1 (a threshold that
+   is hit, prev > t >= r_j, is consumed, one per level; thresholds above the first level were skipped by thr_init).  If
+   the current threshold t of that state lies between levels k-1 and k, a request r_k <= res that is finer than all
+   levels before k gets level k-1 when res > t and level k otherwise, whatever the stretch factor. *)
+Theorem closest_level_thr_general :
+  forall g ths rn rd k,
+    0 < rd -> 0 <= k < levels g ->
+    (forall j, 0 <= j < k -> rn < res_at g j * rd) -> res_at g k * rd <= rn ->
+    let '(th0, ths0) := thr_init (res_at g 0) (rev ths) in
+    let '(th, _, prev) := thr_pass (ress g) (res_at g 0) th0 ths0 (Z.to_nat k) in
+    forall t, th = Some t -> thr_hit (Some t) prev (res_at g k) = true ->
+    closest_level_thr g ths rn rd = if t * rd <? rn then k - 1 else k.
+Proof. exact Grid_proofs.closest_level_thr_general. Qed.
+
 (* get_affected_bbox_and_level (request in the grid SRS): a level is returned exactly when the rectangle intersects
    the grid bbox and the requested resolution rn/rd = min(w/sx, h/sy) does not exceed res_0 * max_shrink_factor
    (otherwise NoTiles); the level is closest_level of that resolution. *)
@@ -237,6 +251,49 @@ Theorem get_resolution_spec :
     0 < rd /\ rn * sx <= Z.abs (x0 - x1) * rd /\ rn * sy <= Z.abs (y0 - y1) * rd /\
     (rn * sx = Z.abs (x0 - x1) * rd \/ rn * sy = Z.abs (y0 - y1) * rd).
 Proof. exact Grid_proofs.get_resolution_spec. Qed.
+
+(* ---------------------------------------------------------------- requests in another SRS than the grid *)
+
+(* get_affected_bbox_and_level(bbox, size, req_srs) takes as source rectangle calculate_bbox of the transformed outline
+   points (16 by default).  The transformation (PROJ) is external: the statements hold for every list of transformed
+   points.  The source rectangle contains every transformed outline point ... *)
+Theorem calculate_bbox_contains :
+  forall pts b px py, calculate_bbox pts = Some b -> In (px, py) pts ->
+    let '(x0, y0, x1, y1) := b in x0 <= px <= x1 /\ y0 <= py <= y1.
+Proof. exact Grid_proofs.calculate_bbox_contains. Qed.
+
+(* ... is the smallest such rectangle ... *)
+Theorem calculate_bbox_attained :
+  forall pts b, calculate_bbox pts = Some b ->
+    let '(x0, y0, x1, y1) := b in
+    (exists q, In q pts /\ fst q = x0) /\ (exists q, In q pts /\ snd q = y0) /\
+    (exists q, In q pts /\ fst q = x1) /\ (exists q, In q pts /\ snd q = y1).
+Proof. exact Grid_proofs.calculate_bbox_attained. Qed.
+
+(* ... and every transformed outline point at least 1/10 pixel inside it has its tile in the list reported for the
+   request (at the level chosen for the source rectangle).  affected_tiles_cover_foreign_partial: what is missing is
+   the curved outline between the sampled points (the model knows the transformation only at the sampled points). *)
+Theorem affected_tiles_cover_foreign_partial :
+  forall g tpts sx sy b l px py,
+    wf g -> decreasing_res g -> 0 < levels g -> 0 < sx -> 0 < sy -> 0 < sf_d g <= sf_n g ->
+    affected_level_foreign g tpts sx sy = Some (b, l) -> In (px, py) tpts ->
+    let '(bx0, by0, bx1, by1) := b in
+    (bx0 < bx1 /\ by0 < by1) ->
+    bx0 + inset g l <= px <= bx1 - inset g l -> by0 + inset g l <= py <= by1 - inset g l ->
+    exists ab n m ts, affected_level_tiles g b l = Affected ab n m ts /\
+      let '(tx, ty) := tile g px py l in In (limit_tile g tx ty l) ts.
+Proof. exact Grid_proofs.affected_tiles_cover_foreign. Qed.
+
+(* generate_envelope_points: 4 * steps points, the four corners among them. *)
+Theorem envelope_points_length :
+  forall b n, 4 < n -> Z.of_nat (length (envelope_points b n)) = 4 * env_steps n.
+Proof. exact Grid_proofs.envelope_points_length. Qed.
+
+Theorem envelope_points_corners :
+  forall x0 y0 x1 y1 n, 4 < n -> x0 <= x1 -> y0 <= y1 ->
+    let pts := envelope_points (x0, y0, x1, y1) n in
+    In (x0, y0) pts /\ In (x1, y0) pts /\ In (x1, y1) pts /\ In (x0, y1) pts.
+Proof. exact Grid_proofs.envelope_points_corners. Qed.
 
 (* ---------------------------------------------------------------- tie of the integer helpers to the source *)
 
